@@ -72,6 +72,12 @@ def events(shape, level):
                     ev.append(("write", iks, (i, j), "S"))
                     if level >= 1 or iks == ("S", "S"):
                         ev.append(("write", iks, (i, j), "K"))
+        # a row read at a secret index is stored into two rows (the same row object held in two places)
+        for i in range(R):
+            for j in range(R):
+                for k in range(R):
+                    if j != k:
+                        ev.append(("rowdup", ("S",), (i,), (j, k)))
     return ev
 
 
@@ -83,6 +89,13 @@ def model_apply(model, e, wv):
     """Python-list model.  Secret indices must be within bounds; public ones follow list semantics."""
     kind = e[0]
     iks, idx = e[1], e[2]
+    if kind == "rowdup":
+        if not (0 <= idx[0] < len(model)):
+            raise ModelIndexError()
+        row = list(model[idx[0]])
+        for j in e[3]:
+            model[j] = list(row)       # "a write replaces exactly that element": rows do not alias
+        return None
     tgt = model
     for d, (ik, i) in enumerate(zip(iks, idx)):
         n = len(tgt)
@@ -141,6 +154,11 @@ def run_history(shape, hist, p, want_trace=False, ign=False, share=False):
             try:
                 if e[0] == "read":
                     res = arr[index]
+                elif e[0] == "rowdup":
+                    row = arr[index]
+                    for j in e[3]:
+                        arr[j] = row
+                    res = None
                 else:
                     arr[index] = rt.PrivVal(wv) if e[3] == "S" else wv
                     res = None
@@ -230,7 +248,8 @@ def _task(t):
                         if not share:       # with shared objects the number of index variables depends on which values coincide
                             g = traces.setdefault(shape_key(h2), {})
                             g.setdefault(r["trace"], h2)
-                        key = (r["state"], tuple(type(x).__name__ for x in _cells(r["arr"])))
+                        ids = [id(x) for x in r["arr"].arr]
+                        key = (r["state"], tuple(type(x).__name__ for x in _cells(r["arr"])), tuple(ids.index(i) for i in ids))
                         if not prune:
                             nxt.append(h2)
                         elif key not in seen:
@@ -241,7 +260,7 @@ def _task(t):
     search(False, depth, evs, True)
     # shared index objects: in-range events only, no merging, depth 3 (2x2 and 1-D) / 2
     dims = shape[1]
-    inr = [e for e in evs if all((0 <= i < d_) for i, d_ in zip(e[2], dims)) and not (e[0] == "write" and e[3] == "K")]
+    inr = [e for e in evs if all((0 <= i < d_) for i, d_ in zip(e[2], dims)) and not (e[0] == "write" and e[3] == "K") and e[0] != "rowdup"]
     if len(dims) == 2:
         inr = [e for e in inr if e[1] in (("S", "S"), ("K", "K"), ("S", "K"))]
     sdepth = 3 if (len(inr) <= 30 or level >= 1) else 2
@@ -255,7 +274,7 @@ def _task(t):
     # ---- soundness: all witness choices (1-D and 2-D, every event with at least one secret index)
     dims = shape[1]
     for e in evs:
-        if "S" not in e[1]:
+        if "S" not in e[1] or e[0] == "rowdup":
             continue
         if any(ik == "K" and not (0 <= i < d) for ik, i, d in zip(e[1], e[2], dims)):
             continue                    # public index outside the bounds: plain IndexError, no system
@@ -375,7 +394,7 @@ def run(ctx):
     ctx.cov["exhaustive"] = agg["undecided"] == 0
     ctx.cov["rule"] = ("arrays: 1-D length 1..4 and 2-D 2x2 / 2x3 with constant / secret / mixed contents; events: read / "
                        "write (constant or secret value) at every index of [-1, len] with secret and public indices (all four "
-                       "secret/public combinations for 2-D); breadth-first over histories to depth 3 (1-D) / 1-2 (2-D), "
+                       "secret/public combinations for 2-D), and for 2-D storing a secretly read row into two other rows; breadth-first over histories to depth 3 (1-D) / 1-2 (2-D), "
                        "pruned on canonical array contents; model = nested Python lists; states = distinct array contents; "
                        "trace groups = history shapes whose in-range instances must share one trace; E2 on 1-D arrays of "
                        "length <= 3")
